@@ -7,6 +7,7 @@ import (
 	"strings"
 	"time"
 
+	"github.com/massnetorg/mass-core/massutil"
 	"github.com/massnetorg/mass-core/wire"
 	mwdb "massnet.org/mass-wallet/masswallet/db"
 	"massnet.org/mass-wallet/masswallet/keystore"
@@ -32,10 +33,18 @@ type Run struct {
 	Restarts int
 	WaitLimit time.Duration
 	TipBefore wire.Hash // stored tip found by the last Open before Start ran
+	RecTip    wire.Hash // the wallet's tip according to the emitted record (last accepted P)
 	tipKnown  bool      // the last Open got as far as reading the stored tip
 }
 
 func (r *Run) emit(f string, a ...interface{}) { r.Lines = append(r.Lines, fmt.Sprintf(f, a...)) }
+
+// accepted records that the wallet accepted the announcement of b (its tip is now b).
+func (r *Run) accepted(b *massutil.Block) {
+	r.emit("P %d ok", r.S.Gen.CfBlockID(b))
+	r.RecTip = *b.Hash()
+	r.markSeen(b)
+}
 
 // NewRun creates the node and the scratch directory; the wallet is opened by Open.
 func NewRun(s *Script) (*Run, error) {
@@ -50,14 +59,21 @@ func NewRun(s *Script) (*Run, error) {
 	}
 	r := &Run{S: s, Dir: dir, N: node, Active: map[int]bool{}, WaitLimit: 30 * time.Second, Issued: map[int][]string{}, Seen: map[wire.Hash]bool{}, Attached: map[int]bool{}, NodeDone: make([]bool, len(s.Ops))}
 	r.Lines = append(r.Lines, s.Header...)
+	r.RecTip = *node.Best[0].Hash()
 	return r, nil
 }
 
 // Close stops what is still running and removes the scratch files. A crashed (abandoned) wallet
 // is not stopped: its goroutines are frozen inside the wrapper.
 func (r *Run) Close() {
-	if r.W != nil && (r.Ctl == nil || !r.Ctl.Crashed()) {
-		r.W.Stop()
+	if r.W != nil && (r.Ctl == nil || r.Ctl.Defuse()) {
+		done := make(chan struct{})
+		go func() { r.W.Stop(); close(done) }()
+		select {
+		case <-done:
+		case <-time.After(10 * time.Second):
+			fmt.Fprintln(os.Stderr, "cfsim: Stop did not return within 10 s (wallet abandoned)")
+		}
 	}
 	r.N.Close()
 	os.RemoveAll(r.Dir)
@@ -176,8 +192,7 @@ func (r *Run) Exec(i int) Outcome {
 			if r.W.H.VerifBest().Hash != *r.N.Tip().Hash() {
 				r.W.Notify(r.N.Tip())
 				if best := r.W.H.VerifBest(); best.Hash == *r.N.Tip().Hash() {
-					r.emit("P %d ok", r.S.Gen.CfBlockID(r.N.Tip()))
-					r.markSeen(r.N.Tip())
+					r.accepted(r.N.Tip())
 					r.Stale = false
 				} else {
 					r.emit("P %d err", r.S.Gen.CfBlockID(r.N.Tip()))
@@ -217,12 +232,12 @@ func (r *Run) Exec(i int) Outcome {
 			best := r.W.H.VerifBest()
 			if best.Hash == *op.Blk.Hash() {
 				out.Val = "ok"
-				r.markSeen(op.Blk)
+				r.accepted(op.Blk)
 			} else {
 				out.Val = "err"
 				out.Err = fmt.Errorf("announcement of block %d not accepted", op.BlkID)
+				r.emit("P %d err", op.BlkID)
 			}
-			r.emit("P %d %s", op.BlkID, out.Val)
 			r.Stale = best.Hash != *r.N.Tip().Hash()
 		}
 	case OpQuery:
